@@ -20,8 +20,8 @@ ASSUMPTIONS = [K.ASSUME_CPYTHON,
                'their bitmask forms reorder_par / popcount-parity used by the lemma library (induction over list length, '
                'not mechanised; exercised by the tables stand-in)',
                'sign_spec is the coordinate multiplication table of Cl(p,q,r) w.r.t. ascending products (textbook)',
-               'admissible basis: names are e + distinct hex digits of generators start_index..start_index+d-1; no generator '
-               'is named e (index 14) in non-canonical spellings',
+               'admissible basis: names are e + distinct hex digits of generators start_index..start_index+d-1 (a generator may be named e, index 14: '
+               'since fix 57762e2 the spelling reaches _swap_blades without the name prefix)',
                'collections.Counter, numpy array indexing, re.match, hex()/int(,16) on single digits behave as documented',
                'custom-basis branch of __post_init__ (under contract for every well-formed basis: any number of names, lengths, '
                'characters): builtin contracts of min / sorted / enumerate and of a filtering list comprehension (the selected '
@@ -39,6 +39,7 @@ def build(H, tier, seed):
     A.vc_cayley(H)
     A.vc_blade2canon(H)
     A.vc_blade2canon_concrete(H)
+    A.vc_blade2canon_concrete(H, d=4, start=12)      # generators c, d, e, f: one is named like the prefix of every blade name
     A.vc_bladedict_getitem(H)
     T.table_lemmas(H, tier)
 
@@ -83,6 +84,9 @@ def standins(tier, seed):
     for p, q, r in [(2, 0, 1), (3, 0, 1), (1, 1, 1), (3, 1, 0), (4, 1, 0)]:
         cfgs.append(dict(p=p, q=q, r=r))
     cfgs += [dict(name='2DPGA'), dict(name='3DPGA'), dict(name='STAP')]
+    # start indices for which a generator is named with a hex *letter*, in particular 'e' (index 14), the letter blade names start with
+    cfgs += [dict(signature=[1, 1, 1, 1], start_index=12), dict(signature=[1, -1, 0], start_index=13), dict(signature=[0, 1], start_index=14),
+             dict(signature=[1, -1, 1, 0, 1], start_index=10), dict(p=3, q=0, r=0, start_index=9)]
     # graded mode stores a blade as a one-hot vector over its grade: the blade dictionary has its own code path there
     cfgs += [dict(p=4, graded=True), dict(p=2, q=1, r=1, graded=True), dict(p=3, graded=True)] + ([dict(p=5, graded=True)] if tier != 'quick' else [])
     for d in (1, 2):
